@@ -9,6 +9,8 @@ import Gocc.Model.Validate
 import Gocc.Proofs.Validate
 import Gocc.Gen.Frontend
 import Gocc.Model.ValidateC
+import Gocc.Model.LexEquiv
+import Gocc.Model.ValidateV
 /- Grammar-level ops of the model driver: decode a grammar line, run the generator models,
    print tables, scan and parse with them. -/
 namespace Gocc.Driver
@@ -246,20 +248,33 @@ def scanWith (T : LexTables) (args : List String) : Option String := do
 def opRefScan (a : Art) (args : List String) : Option String :=
   if !acyclicDefs a.lexProds then some "cyclic" else scanWith (refTablesOf a) args
 
-/-- `lexeq id`: exact product walk model automaton × reference automaton over the elementary
-    intervals; `eq` or the rune path to the first difference -/
+/-- the two automata as data for the verified checker (`Gocc.equivCheck`, theorem `C01_equivCheck_sound`) -/
+def mdfaOf (a : Art) (sets : Array LState) : MDfa :=
+  let C : LexCtx := { prods := a.lexProds.toArray }
+  { states := sets, acts := sets.map fun s => actPair a (lexAction C s.items) }
+
+def rdfaOf (a : Art) : RDfa :=
+  let d := a.ref.get
+  let C : LexCtx := { prods := a.lexProds.toArray }
+  { dfa := d, acts := d.states.map fun S => actPair a (xVerdict C S) }
+
+/-- `lexeq id`: the VERIFIED equivalence checker on (generator-model automaton, reference automaton);
+    when it rejects, an (unverified) product walk looks for the rune path to the first difference -/
 def opLexEq (a : Art) : String :=
   if !acyclicDefs a.lexProds then "cyclic" else
   match a.dfa with
   | .error _ => "panic"
   | .ok sets =>
-    let M := lexTablesOf a sets
-    let R := refTablesOf a
+    let MD := mdfaOf a sets
+    let RD := rdfaOf a
+    if equivCheck MD RD then s!"eq verified refstates={a.ref.get.states.size}" else
+    let M := MD.tables
+    let R := RD.tables
     let starts := a.ref.get.starts
     let rec walk (fuel : Nat) (work : List (Nat × Nat × List Int)) (seen : List (Nat × Nat)) : String :=
       match fuel, work with
-      | 0, _ => "fuel"
-      | _, [] => s!"eq pairs={seen.length} refstates={a.ref.get.states.size}"
+      | 0, _ => "diff fuel"
+      | _, [] => "diff bounds"
       | fuel + 1, (m, r, path) :: rest =>
         if seen.contains (m, r) then walk fuel rest seen
         else if M.accept m != R.accept r || M.ignore m != R.ignore r then
@@ -374,6 +389,43 @@ def opC05 (a : Art) : String :=
   | some (.error _) => "panic"
   | none => "nosyntax"
 
+def ntsOf (body : List Sym) : List Nat := body.filterMap fun | .nt B => some B | _ => none
+
+partial def genProd (G : NGrammar) (acc : List (Nat × Nat)) : List (Nat × Nat) :=
+  match (List.range G.prods.size).find? fun p =>
+      !hasNT acc (G.head p) && (ntsOf (G.body p)).all (hasNT acc) with
+  | some p => genProd G ((G.head p, p) :: acc)
+  | none => acc
+
+partial def genNull (G : NGrammar) (acc : List (Nat × Nat)) : List (Nat × Nat) :=
+  match (List.range G.prods.size).find? fun p =>
+      !hasNT acc (G.head p) && (G.body p).all fun | .t _ => false | .nt B => hasNT acc B with
+  | some p => genNull G ((G.head p, p) :: acc)
+  | none => acc
+
+def firstCands (G : NGrammar) (null : List (Nat × Nat)) (acc : List (Nat × Nat × Nat × Nat)) :
+    List (Nat × Nat × Nat × Nat) :=
+  (List.range G.prods.size).flatMap fun p =>
+    let body := G.body p
+    (List.range body.length).flatMap fun i =>
+      if (body.take i).all (fun | .t _ => false | .nt B => hasNT null B) then
+        match body[i]? with
+        | some (.t b) => [(G.head p, b, p, i)]
+        | some (.nt B) => (acc.filter (·.1 == B)).map fun x => (G.head p, x.2.1, p, i)
+        | none => []
+      else []
+
+partial def genFirst (G : NGrammar) (null : List (Nat × Nat)) (acc : List (Nat × Nat × Nat × Nat)) :
+    List (Nat × Nat × Nat × Nat) :=
+  match (firstCands G null acc).find? fun x => !acc.any fun y => y.1 == x.1 && y.2.1 == x.2.1 with
+  | some x => genFirst G null (x :: acc)
+  | none => acc
+
+def genVCert (G : NGrammar) : VCert :=
+  let null := genNull G []
+  { prod := genProd G [], null := null, first := genFirst G null [] }
+
+
 /-- `validate id`: run the verified validator on the tables with the generator's item sets as certificate -/
 def opValidate (a : Art) : String :=
   match a.lr with
@@ -389,7 +441,7 @@ def opValidate (a : Art) : String :=
         first := (List.range T.nts.length).flatMap fun k =>
           ((r.ctx.fs.get T.nts[k]!).filter (· != "empty")).map fun t => (k, tIdx t) }
     let b (x : Bool) : Nat := if x then 1 else 0
-    s!"safe={b (safe G T c && safeEnds T c)} complete={b (firstOk G fc && complete G T fc cla)} acts={b (kindsTotal T)} recover={b anyRec}"
+    s!"safe={b (safe G T c && safeEnds T c)} complete={b (firstOk G fc && complete G T fc cla)} valid={b (validItems G T cla (genVCert G))} acts={b (kindsTotal T)} recover={b anyRec}"
   | some (.error _) => "panic"
   | none => "nosyntax"
 
